@@ -1,4 +1,5 @@
 import Req.Client.ResendEdit
+import Req.Lemmas.C01Resend
 /-!
 C01, round 6 — the same `*Request` transmitted again after its description was changed.
 
@@ -12,6 +13,10 @@ C01, round 6 — the same `*Request` transmitted again after its description was
   `RawURL`): after ANY edit that leaves `RawURL` alone — new path-parameter values at request or
   client level — the next pass still expands to the OLD string.
 * `cached_expansion_breaks` — hence the variant violates the specification (concrete sequence).
+* `unedited_retries_same_request` — the converse direction: WITHOUT an edit, a send followed by any
+  number of retry attempts transmits the same request every time (the client defaults written into
+  the Request by the first pass are not applied twice: `mergeHeaders_idem`; the client cookies are
+  appended once) — the round-2 "attempt dimension" as a theorem.
 -/
 namespace Req.Props.C01Resend
 open Req.Proto Req.Url Req.Merge Req.H1 Req.ResendEdit
@@ -96,6 +101,44 @@ theorem asIs_expansion_follows_edit (o : Obj) (f : Api → Api) :
     expansion .asIs o2 = substParams o2.api.url.rawURL o2.api.url.rPath o2.api.url.cPath :=
   expansion_asIs _
 
+/-! ### no edit: every attempt is the same request -/
+
+theorem request_of_pos (api : Api) (a b : Nat) (ha : a ≠ 0) (hb : b ≠ 0) :
+    Desc.request ⟨api, a⟩ = Desc.request ⟨api, b⟩ := by
+  simp [Desc.request, ha, hb]
+
+/-- a description whose client defaults are already written into the Request: retries repeat. -/
+theorem settled_retries (n : Nat) : ∀ (api : Api) (k : Nat),
+    mergeHeaders api.cHeaders api.rHeaders = api.rHeaders →
+    specRun ⟨api, k⟩ (List.replicate n .retry) = List.replicate n (Desc.request ⟨api, k + 1⟩) := by
+  induction n with
+  | zero => intro api k _; rfl
+  | succ n ih =>
+    intro api k hfix
+    have hafter : (Desc.after ⟨api, k + 1⟩) = ⟨api, k + 1⟩ := by
+      simp [Desc.after, hfix]
+    simp only [List.replicate_succ, specRun, hafter]
+    rw [ih api (k + 1) hfix, request_of_pos api (k + 1 + 1) (k + 1) (by omega) (by omega)]
+
+/-- **unedited_retries_same_request**: a Request whose client-level header map has distinct keys
+(a Go map), sent and then retried `n` times with NO edit in between, is the same `*http.Request`
+`n + 1` times: the request of its description. -/
+theorem unedited_retries_same_request (o : Obj) (hz : o.attempt = 0)
+    (hd : ∀ c, o.api.cHeaders = some c → c.Pairwise fun a b => a.key ≠ b.key) (n : Nat) :
+    run .asIs o (.send :: List.replicate n .retry)
+      = List.replicate (n + 1) (Desc.request ⟨o.api, 0⟩) := by
+  rw [resend_reflects_current_description, hz]
+  have hidem := Req.Lemmas.C01Resend.mergeHeaders_idem o.api.cHeaders o.api.rHeaders hd
+  simp only [specRun, List.replicate_succ, List.cons.injEq, true_and]
+  have hfix : mergeHeaders (Desc.after ⟨o.api, 0⟩).api.cHeaders (Desc.after ⟨o.api, 0⟩).api.rHeaders
+      = (Desc.after ⟨o.api, 0⟩).api.rHeaders := by
+    simpa [Desc.after] using hidem
+  have := settled_retries n (Desc.after ⟨o.api, 0⟩).api 0 hfix
+  have hsame : Desc.request ⟨(Desc.after ⟨o.api, 0⟩).api, 0 + 1⟩ = Desc.request ⟨o.api, 0⟩ := by
+    simp [Desc.request, Desc.after, buildRequest, hidem, mergeCookies]
+  rw [hsame] at this
+  exact this
+
 /-- the template `/{k}`, request-level `k = a`, then edited to `k = b`. -/
 def demo : Obj :=
   { api := { method := [71, 69, 84],
@@ -118,5 +161,9 @@ theorem cached_expansion_breaks :
 transmissions. -/
 example : (run .asIs demo [.send, .edit demoEdit, .retry]).length = 2 := by
   simp [run, step]
+
+/-- non-vacuity of `unedited_retries_same_request`: `demo` has no client header map at all. -/
+example : run .asIs demo [.send, .retry, .retry] = List.replicate 3 (Desc.request ⟨demo.api, 0⟩) :=
+  unedited_retries_same_request demo rfl (by intro c h; cases h) 2
 
 end Req.Props.C01Resend
